@@ -515,7 +515,10 @@ class Check:
         pr = self.proof or ProofStatus()
         cov = dict(
             obligations=pr.obligations, discharged=pr.discharged, checker_cmd=pr.checker_cmd or "n/a",
-            trusted_base=self.trusted + [
+            trusted_base=self.trusted + ([
+                "translators/{" + ",".join(pr.translators) + "}.py (fail-closed, purely syntactic; their output coq/gen/*.v is "
+                "regenerated from /repo on every run) and the interpreters of the small languages they emit (coq/theories/*Lang.v) "
+                "as the reading of the accepted Python subset (DESIGN 6, 9.8)"] if pr.translators else []) + [
                 "Coq 8.16.1 kernel (coqc, full .vo build; vm_compute used in proofs by computation; no native_compute)",
                 "axioms reported by Print Assumptions in this run: " + (", ".join(pr.axioms) if pr.axioms else
                                                                         f"none ({pr.closed} x 'Closed under the global context')"),
